@@ -27,8 +27,16 @@ def mc_huff(c):
         c.tool_error("MC_DeflateHuff: the seeded design mutation was not rejected (invariants lost their teeth)")
 
 
+def mc_deflate_helpers(c):
+    """compress_to_vec's grow-and-retry loop over the DeflateCore model: never the 'Bug!' panic, one whole
+    stream returned, termination (weak fairness), for several input sizes and both framings"""
+    for cfg in ("0_TRUE", "1_FALSE", "4_TRUE", "9_TRUE", "9_FALSE", "14_FALSE"):
+        c.model_check("MC_DeflateHelpers", "MC_DeflateHelpers_%s.cfg" % cfg, workers=2)
+
+
 def check_C01(c):
     mc_params(c)
+    mc_deflate_helpers(c)
     mc_lz(c, ("lazy", "greedy", "rle") if thorough(c) else ("greedy",))
     c.scenario("oneshot")
     return c.finish("model_checking",
